@@ -27,6 +27,7 @@ everything *around* the digest:
 | `inlineSlot`               | `reader/signed_many.rs  SignaturePacket::new_hasher` + `fill_inner` (the hash slot of one signature of a signed message: reader error, `None`, or the digest) |
 | `verifyInline`             | `message/types.rs  Message::verify_nested_explicit` (+ `check_inline_verification_preconditions`) |
 | `verifyMessage`            | `Message::verify` / `verify_read` / `verify_nested` for one signature       |
+| `inlineSlotsPre`, `verifyMessageAt` | `SignatureManyReader::new` (one hasher per packet, mode from that packet's type) + `verify_nested_explicit(i, key)` on a message with several signatures |
 | `verifySubkeyBindings`     | `signed_key/{public,secret}.rs  Signed{Public,Secret}SubKey::verify_bindings` |
 | `verifyUser`               | `types/user.rs  SignedUser::verify_bindings` / `SignedUserAttribute::verify_bindings` |
 | `verifyDetails`, `verifyCertificate` | `signed_key/shared.rs SignedKeyDetails::verify_bindings`, `Signed{Public,Secret}Key::verify_bindings` |
@@ -372,6 +373,65 @@ def verifyMessage (P : Prims) (k : VKey) (ops : Option Ops) (s : Sig) (chunks : 
   match inlineSlot P ops s chunks with
   | .error g => .err g
   | .ok slot => verifyInline P k s slot
+
+/-! ### messages with several signatures
+
+`SignatureManyReader` holds one `SignaturePacket` per Signature / One-Pass Signature packet in
+front of the literal data, in order of appearance, and **one hasher per packet**:
+`SignatureManyReader::new` maps `new_hasher` over the packets, and `new_hasher` takes the
+`NormalizingHasher` mode (`text_mode`) from the type of *that* packet.  The reader pairs One-Pass
+packet number `i` (counting One-Pass packets only) of `n` with trailing signature `n - 1 - i`
+(`one_pass_signatures.pop()`); the model is given the packets already paired. -/
+
+/-- one signature of a signed message: its One-Pass header if it is a one-pass signature, and the
+(prefixed or trailing) Signature packet -/
+structure MsgSig where
+  ops : Option Ops
+  sig : Sig
+deriving DecidableEq, Repr
+
+/-- errors of the first phase (`SignatureManyReader::new`, i.e. `Message::from_bytes` fails) as
+opposed to errors while finishing the hashes (`fill_inner`, i.e. reading fails) -/
+def isConstructionError : Guard → Bool
+  | .salt => true
+  | .hashAlg => true
+  | _ => false
+
+/-- first error of the construction phase, in packet order -/
+def firstConstructionError : List (Except Guard (Option (Byte × Bytes))) → Option Guard
+  | [] => none
+  | .error g :: r => if isConstructionError g then some g else firstConstructionError r
+  | .ok _ :: r => firstConstructionError r
+
+/-- all slots, or the first error in packet order -/
+def collectSlots : List (Except Guard (Option (Byte × Bytes))) → Except Guard (List (Option (Byte × Bytes)))
+  | [] => .ok []
+  | .error g :: _ => .error g
+  | .ok x :: r =>
+    match collectSlots r with
+    | .error g => .error g
+    | .ok xs => .ok (x :: xs)
+
+/-- the hash slots of a message with the signatures `sigs` (before the digests are taken): every
+signature's slot is computed by `inlinePre` from ITS OWN header / packet, with its own salt and
+its own hashing mode; the reader fails as a whole if any hasher cannot be made (construction
+errors first) or any `hash_signature_data` fails -/
+def inlineSlotsPre (hk : Byte → Bool) (sigs : List MsgSig) (chunks : List Bytes) :
+    Except Guard (List (Option (Byte × Bytes))) :=
+  let pres := sigs.map fun m => inlinePre hk m.ops m.sig chunks
+  match firstConstructionError pres with
+  | some g => .error g
+  | none => collectSlots pres
+
+/-- `Message::verify_nested_explicit(i, key)` (also one cell of `verify_nested`) on a message with
+the signatures `sigs`, read to the end -/
+def verifyMessageAt (P : Prims) (k : VKey) (sigs : List MsgSig) (chunks : List Bytes) (i : Nat) : Res :=
+  match inlineSlotsPre P.hashKnown sigs chunks with
+  | .error g => .err g
+  | .ok slots =>
+    match sigs[i]?, slots[i]? with
+    | some m, some slot => verifyInline P k m.sig (slot.map fun ap => P.hash ap.1 ap.2)
+    | _, _ => .err .noneSlot
 
 /-! ## certificates: `verify_bindings` -/
 
